@@ -332,7 +332,7 @@ let obs_str o =
 
 let run_sim ws =
   toks := ws;
-  let _threads = nint () in
+  let _threads = next () in  (* "<n>" or "<n>d<seed>..." (delay spec, harness only) *)
   let fuel = nint () in
   let t0 = nz () in
   let tol = nopt_z () in
